@@ -206,3 +206,13 @@ Proof.
          end;
   repeat split; intros; try discriminate; try congruence; try lia.
 Qed.
+
+(** The [delay_signal.unwrap()] of the sustained-delay arm is only reached with [Some]:
+    without a signal the streak is 0, below [WEAK_SUSTAIN_TICKS]. *)
+Lemma no_unwrap_panic sel l (e : lst) :
+  (WEAK_SUSTAIN_TICKS <=? match delay_signal sel l with
+                          | Some _ => sat_add_u32 (s_ds e) 1
+                          | None => 0
+                          end) = true ->
+  delay_signal sel l <> None.
+Proof. destruct (delay_signal sel l); [discriminate|]. cbn. discriminate. Qed.
